@@ -1,0 +1,24 @@
+//go:build verif
+
+package modules
+
+import "sync/atomic"
+
+// Verification accessors for the microtask scheduler (build tag "verif" only; read-only).
+
+// VerifMicroTasks returns the global microtask counter and the configured limit.
+func VerifMicroTasks() (count, limit int32) {
+	return atomic.LoadInt32(microTasks), atomic.LoadInt32(microTasksThreshhold)
+}
+
+// VerifMicroTaskQueues returns the number of clearance requests queued per priority and the number of
+// tokens in the finished channel.
+func VerifMicroTaskQueues() (medium, low, finished int) {
+	return len(mediumPriorityClearance), len(lowPriorityClearance), len(microTaskFinished)
+}
+
+// VerifMicroTaskQueueCap returns the capacity of the clearance queues.
+func VerifMicroTaskQueueCap() int { return cap(mediumPriorityClearance) }
+
+// VerifMicroTaskCnt returns the module's microtask counter.
+func (m *Module) VerifMicroTaskCnt() int32 { return atomic.LoadInt32(m.microTaskCnt) }
